@@ -32,6 +32,9 @@ CLAIMED["C13"] = ("proof", CLAIMED["C12"][1] + "; bounded enumeration of synthet
 CLAIMED["C16"] = ("proof", CLAIMED["C12"][1] + "; exhaustive finite enumeration of the TOML key x type grid; bounded CLI runs",
     "exception-flow contracts (raises clauses) on the real bodies of ReuseTOML.from_toml / from_file, ReuseDep5.from_file, ClickObj.project (only click.UsageError escapes) and the worker callable (nothing escapes; report xor error); the statement's grid 'each key x each TOML type' enumerated completely through the real from_toml; every subcommand run on malformed projects (bounded)",
     "raise sets of tomlkit / python-debian / file reads are assumed; from_dict is decided by the exhaustive grid, not by a contract on its body; permission errors not exercised (root)", "4.16")
+CLAIMED["C19"] = ("proof", CLAIMED["C12"][1] + " with ghost file-system effect sets; bounded runs of the real command with a stubbed network",
+    "effect contracts on the real bodies of put_license_in_file (writes exactly its destination, only if absent; nothing written on failure; no network for LicenseRef-) and of the download callback (exit 0 only if every requested licence, ID+ as ID, was written; nothing removed); bounded stubbed-network runs cover --all, existing targets, LicenseRef sources and mid-batch failures",
+    "assumes urllib/shutil/pathlib effects as modelled, _path_to_license_file's destination (exercised by the bounded runs), single process", "4.19")
 NOT_YET = "check not built yet in this session (work in progress; see DESIGN.md section 4 for the planned contracts)"
 props = [json.loads(l) for l in open(os.path.join(V, "properties.jsonl"))]
 checks, na = [], []
